@@ -122,20 +122,23 @@ void run_c18(sim::RunCtx& ctx) {
         }
     }
 
-    // ---- (3) abort after every prefix of the call history
+    // ---- (3) abort after every prefix of the call history, on a healthy sink and on a sink that fails from then on
     if (ctx.focus < 0 || ctx.focus == K_ABORT) {
-        for (int k = 0; k <= ncalls - 1; k++) {
-            if (!want(K_ABORT, k)) continue;
-            sim::set_focus(K_ABORT, k);
+        for (int kk = 0; kk < 3 * ncalls; kk++) {
+            int k = kk / 3, sinkmode = kk % 3;      // 0 healthy, 1 every flush-time write fails (incl. the fclose inside abort), 2 device full from the first byte
+            if (!want(K_ABORT, kk)) continue;
+            sim::set_focus(K_ABORT, kk);
             sim::reset_fault_plans();
+            if (sinkmode == 1) sim::sinkplan.flush_fail = true; else if (sinkmode == 2) sim::sinkplan.enospc_at_byte = (int64_t)r.below(8);
             FILE* user_stream = nullptr;
-            exec::WriteOutcome w = exec::run_writer(p, path, k, p.path_mode ? nullptr : &user_stream);
+            exec::WriteOutcome w = exec::run_writer(p, path, k, p.path_mode ? nullptr : &user_stream, 1);
             evals++;
-            ctx.viol_focus = K_ABORT; ctx.viol_focus2 = k;
+            ctx.viol_focus = K_ABORT; ctx.viol_focus2 = kk;
             if (!w.created) continue;
-            if (p.path_mode) SIM_CHECK(!sim::disk_has(path), "abort.file_left_behind", "path writer aborted after %d calls: file still exists (%zu bytes)", k, sim::disk_file(path).size());
-            else { SIM_CHECK(user_stream != nullptr && sim::io.open_streams == 1, "abort.user_stream_closed", "FILE* writer aborted after %d calls: the caller's stream was closed", k); SIM_CHECK(sim::close_stream_real(user_stream) == 0, "abort.user_stream_broken", "caller's stream fails to close after abort"); }
-            std::string what; SIM_CHECK(sim::ledger_leaks(&what) == 0, "resource.leak", "after abort at call %d: %s", k, what.c_str());
+            if (sinkmode) SIM_COUNT("fault.abort_on_failing_sink");
+            if (p.path_mode) SIM_CHECK(!sim::disk_has(path), "abort.file_left_behind", "path writer aborted after %d calls (sink mode %d): file still exists (%zu bytes)", k, sinkmode, sim::disk_file(path).size());
+            else { SIM_CHECK(user_stream != nullptr && sim::io.open_streams == 1, "abort.user_stream_closed", "FILE* writer aborted after %d calls: the caller's stream was closed", k); int rc = sim::close_stream_real(user_stream); if (sinkmode == 0) SIM_CHECK(rc == 0, "abort.user_stream_broken", "caller's stream fails to close after abort"); }
+            std::string what; SIM_CHECK(sim::ledger_leaks(&what) == 0, "resource.leak", "after abort at call %d (sink mode %d): %s", k, sinkmode, what.c_str());
             sim::world_check_closed();
             SIM_COUNT("fault.abort_injected");
         }
